@@ -30,7 +30,6 @@ from apischema.types import AnyType
 from apischema.typing import is_type_var
 from apischema.utils import (
     context_setter,
-    get_args2,
     get_origin_or_type,
     identity,
     is_subclass,
@@ -141,6 +140,14 @@ def sub_conversion(
     )
 
 
+def has_type_vars(tp: AnyType) -> bool:
+    """Is a type variable, or a generic alias with type variables at any depth;
+    an unparametrized generic class is not concerned, its arguments are unknown"""
+    return is_type_var(tp) or (
+        not isinstance(tp, type) and bool(getattr(tp, "__parameters__", ()))
+    )
+
+
 class DeserializationVisitor(ConversionsVisitor[Deserialization, Result]):
     @staticmethod
     def _has_conversion(
@@ -155,9 +162,7 @@ class DeserializationVisitor(ConversionsVisitor[Deserialization, Result]):
                         continue
                     identity_conv = True
                     conv = ResolvedConversion(replace(conv, sub_conversion=identity))
-                if is_type_var(conv.source) or any(
-                    map(is_type_var, get_args2(conv.source))
-                ):
+                if has_type_vars(conv.source):
                     _, substitution = subtyping_substitution(tp, conv.target)
                     conv = replace(
                         conv, source=substitute_type_vars(conv.source, substitution)
@@ -197,9 +202,7 @@ class SerializationVisitor(ConversionsVisitor[Serialization, Result]):
             if is_subclass(tp, conv.source):
                 if is_identity(conv):
                     return True, None
-                if is_type_var(conv.target) or any(
-                    map(is_type_var, get_args2(conv.target))
-                ):
+                if has_type_vars(conv.target):
                     substitution, _ = subtyping_substitution(conv.source, tp)
                     conv = replace(
                         conv, target=substitute_type_vars(conv.target, substitution)
